@@ -37,6 +37,18 @@ def eight_modes(ctx, ws, rule_path, input_path, binary=False, macros=None, prepa
     keys = [(ret, search, oa) for ret in ("bool", "list") for search in ("first", "all") for oa in (False, True)]
     if prepare_first is None:
         prepare_first = ctx.rng.random() < 0.3
+    if prepare_first == "flip":
+        # ONE matcher object, the eight questions asked in a shuffled order by re-setting the attributes of its match_config
+        ctx.event("mode_sets_asked_of_one_object_by_flipping_attributes")
+        order = list(keys)
+        ctx.rng.shuffle(order)
+        REC.clear()
+        r = real.match_flip(rule_path, input_path, order, binary=binary, macros=macros)
+        ctx.ran(8)
+        for n, k in enumerate(order):
+            res[k] = ("ok", r[1][n], None) if r[0] == "ok" else r
+            ev[k] = []
+        return res, ev
     if prepare_first:
         ctx.event("mode_sets_with_all_matchers_built_first")
         built = {k: real.build(rule_path, input_path, binary=binary, ret=k[0], search=k[1], only_addr=k[2], macros=macros) for k in keys}
@@ -105,7 +117,7 @@ def monitor(driver, doc, text, prep, o):
     case = dsl.case_doc(text, prep, "c12")
     rp = driver.ws.path("rule.yaml")
     pf = getattr(driver, "prepare_first", None)
-    pf = (ctx.rng.random() < 0.3) if pf is None else pf
+    pf = ctx.rng.choice([False] * 5 + [True] * 3 + ["flip"] * 2) if pf is None else pf
     case["prepare_first"] = pf
     res, ev = eight_modes(ctx, driver.ws, rp, prep.path, prepare_first=pf)
     ok = check_relations(ctx, case, res, ev)
@@ -180,6 +192,6 @@ def replay(ctx, case):
         pass
     d = D()
     d.ctx, d.ws, d.macros = ctx, ws, None
-    d.prepare_first = bool(case.get("prepare_first"))
+    d.prepare_first = case.get("prepare_first") or False
     ws.write("rule.yaml", case["rule"])
     monitor(d, yaml.safe_load(case["rule"]), case["rule"], prep, None)
